@@ -522,11 +522,11 @@ func runItems(ctx *workers.Ctx, tier string, lo, hi int) {
 }
 
 var families = []workers.Family{
-	{Name: "bytes", Total: bytesTotal, Run: runBytes},
+	{Name: "items", Total: itemsTotal, Run: runItems},
+	{Name: "inflate", Total: inflTotal, Run: runInfl},
 	{Name: "tokens", Total: tokensTotal, Run: runTokens},
 	{Name: "deep", Total: deepTotal, Run: runDeep},
-	{Name: "inflate", Total: inflTotal, Run: runInfl},
-	{Name: "items", Total: itemsTotal, Run: runItems},
+	{Name: "bytes", Total: bytesTotal, Run: runBytes},
 }
 
 func main() {
@@ -541,7 +541,7 @@ func main() {
 		map[bool]int{true: 2, false: 3}[r.Quick()], tokenDepth(r.Tier), len(alphabet(r.Tier)), allocA0, allocK, limitA))
 	deadline := time.Now().Add(25 * time.Minute)
 	if r.Quick() {
-		deadline = time.Now().Add(150 * time.Second)
+		deadline = time.Now().Add(8 * time.Minute)
 	}
 	caseTO := 60 * time.Second
 	if !r.Quick() {
